@@ -161,7 +161,9 @@ def _install_base(e):
                        "with wire unchanged.  Which outcome, and l, are unconstrained (all short-write patterns)."))
     e.add(Contract("ext:sock.gettimeout", assumed=True, result=lambda c, a: c.fresh(("opt", "real"), "socktimeout"),
                    havoc=lambda c, a, old, k: None))
-    e.add(Contract("ext:sock.settimeout", assumed=True, havoc=lambda c, a, old, k: None))
+    e.add(Contract("ext:sock.settimeout", assumed=True,
+                   havoc=lambda c, a, old, k: a["self"].attrs.__setitem__("timeout", a["$args"][0] if a["$args"] else None),
+                   doc="sock.settimeout(t): later blocking reads on this handle wait at most t (None: for ever)"))
 
     def sel_result(c, a):
         return c.fresh(("oneof", [("const", ()), ("const", ("ready",))]), "ready")
@@ -564,8 +566,17 @@ def install_close(e):
             c.setf(fb, f, c.fresh(sh[f], f))
         for g in GH:
             c.ghost[g] = c.fresh("real" if g == "clock" else "int", g)
+    def close_wait_bounded(c, fr):
+        """structural part of 'close() returns within its timeout': every read of the wait loop is made with the transport's
+        timeout set to the caller's `timeout`."""
+        ws = fr.locals["self"]
+        sk = unopt(c.getf(ws, "sock"))
+        if not isinstance(sk, Ext) or "timeout" not in sk.attrs:
+            return z3.BoolVal(False)
+        r = e.interp.same_value(c, sk.attrs["timeout"], fr.locals["timeout"])
+        return z3.BoolVal(r) if isinstance(r, bool) else r
     e.loop("WebSocket.close", 0, inv=close_loop_inv, havoc=close_loop_havoc, shapes={"frame": ("const", None), "recv_status": "int"},
-           keep=("frame",),
+           keep=("frame",), entry_check=close_wait_bounded,
            modifies=lambda c, fr: [(c.getf(fr.locals["self"], "frame_buffer"), f) for f in ("recv_buffer", "header", "length", "mask_value")])
 
     def close_havoc(c, a, old, k):
